@@ -53,9 +53,15 @@ def make_engine(kind):
     return ylegacy.YaqlFactory().create()
 
 
+OPT = '\u00a7'      # a text written with this prefix is parsed with per-call options: engine(text, {...})
+
+
 def parse_outcome(engine, text):
     try:
-        st = engine(text)
+        if text.startswith(OPT):
+            st = engine(text[1:], {'yaql.limitIterators': 7})
+        else:
+            st = engine(text)
         return ('ok', str(st), canon.digest(canon.snapshot(st.expression)))
     except Exception as e:
         return ('exc', type(e).__name__, str(e), repr(getattr(e, 'position', None)), repr(getattr(e, 'value', None)))
@@ -512,15 +518,25 @@ def jobs(tier, seed):
     for kind in ('delegates', 'legacy'):
         part = [((a,), (b,)) for a, b in (('1 + 2', 'a.b'), ('f(x)', 'a b'), ('1', '1'))]
         out.append(('pairs-' + kind, 'job_schedules', (kind, part, full_limit, 3, 'pair')))
+    # the per-call options path engine(text, options), alone and mixed with plain calls
+    optpairs = [((OPT + a,), (OPT + b,)) for a, b in (('1 + 2', 'a.b'), ('f(x)', 'a b'), ('1', '1'))] + \
+        [((OPT + '1 + 2',), ('a.b',)), ((OPT + 'a b',), ('f(x)',))]
+    for i, g in enumerate(optpairs):
+        out.append(('pairs-options-%d' % i, 'job_schedules', ('default', [g], full_limit, 3, 'pair-options')))
+    # long integer literals on both sides (conversion limits are process-global interpreter state)
+    big = [(('9' * 4301 + ' + 1',), ('8' * 4302,)), (('7' * 4300,), ('9' * 4301,))]
+    for i, g in enumerate(big):
+        out.append(('pairs-bigint-%d' % i, 'job_schedules', ('default', [g], full_limit, 3, 'pair-bigint')))
     # two-text thread bodies (history x schedule), bounded
     seqs = [(('1 #', 'a.b'), ('1 + 2',)), (('a b', '1'), ("'s'", ')')), (('1', '1'), ('1', 'a'))]
     if not quick:
         seqs += [((a, b), (c,)) for a in ('1 #', 'a b', '1') for b in ('a.b', '1 + 2') for c in ('f(x)', "'abc")]
     for i, s in enumerate(seqs):
         out.append(('seq-%d' % i, 'job_schedules', ('default', [s], 3000, 2 if quick else 3, 'seq')))
-    fine_pairs = [('1 + 2', 'a.b'), ('a.b', '1 + 2'), ('a b', 'f(x)')] if quick else \
+    fine_pairs = [('1 + 2', 'a.b'), ('a.b', '1 + 2'), ('a b', 'f(x)'), ('9' * 4301, '8' * 4302), (OPT + '1 + 2', OPT + 'a.b')] if quick else \
+        [('9' * 4301, '8' * 4302), (OPT + '1 + 2', OPT + 'a.b'), (OPT + 'a b', '1 + 2')] + \
         [(a, b) for a in E1_TEXTS_T[:12] for b in E1_TEXTS_T[:12]]
-    nf = 3 if quick else 36
+    nf = 5 if quick else 36
     for i in range(nf):
         part = fine_pairs[i::nf]
         if part:
